@@ -14,6 +14,8 @@ mod fam_pipe;
 mod rr;
 mod fam_attempt;
 mod fam_sched;
+mod fam_outline;
+mod fam_norm;
 
 use std::{collections::BTreeMap, collections::HashSet, fs, io::Write as _, path::Path};
 
@@ -31,6 +33,8 @@ fn families() -> Vec<(&'static str, fn(&mut Rng, usize) -> Case)> {
         ("attempt.run", fam_attempt::gen_attempts),
         ("sched.run", fam_sched::gen_sched_case),
         ("sched.lazy", fam_sched::gen_sched_lazy_case),
+        ("outline.expand", fam_outline::gen_expand),
+        ("norm.run", fam_norm::gen_norm),
     ]
 }
 
